@@ -6,7 +6,7 @@ out="$1"; pkg="$2"; shift 2
 export GOFLAGS=-mod=mod GOPROXY=off GOSUMDB=off GOTOOLCHAIN=local
 wt=$(mktemp -d /tmp/confirm-XXXX); rmdir $wt
 git -C /repo worktree add -q --detach $wt HEAD || exit 2
-trap 'git -C /repo worktree remove --force '$wt' 2>/dev/null; rm -rf '$wt cleanup EXIT
+trap 'git -C /repo worktree remove --force '$wt' 2>/dev/null; rm -rf '$wt EXIT
 cd $wt
 git apply "$out/patch.diff" || { echo "RESULT patch-does-not-apply"; exit 1; }
 go build ./... && go build -tags verif ./... && go vet ./... >/dev/null 2>&1 || { echo "RESULT build-or-vet-fails"; exit 1; }
